@@ -69,6 +69,9 @@ FUNCS = {
     "lp": dict(c="char lp(char n) { char r; r = 0; while (n) { r += 2; n--; } return r; }", params=[("lp_n", 8)], body=None, calls=[]),
     "er": dict(c="char er(char x) { for (Y = 0; Y < 4; Y++) { if (arr[Y] == x) return Y; } return 9; }", params=[("er_x", 8)], body=None, calls=[]),
     "sw": dict(c="char sw(char x) { switch (x) { case 0: return 5; case 1: c++; break; default: c = x; } return c; }", params=[("sw_x", 8)], body=None, calls=[]),
+    # the value returned is that of a postfix expression: the side effect must still happen
+    "ri": dict(c="char ri() { return c++; }", params=[], body=[{"k": "return", "e": {"k": "inc", "pre": False, "d": 1, "lhs": V("c")}}], calls=[]),
+    "rd2": dict(c="char rd2(char x) { return arr[x]--; }", params=[("rd2_x", 8)], body=[{"k": "return", "e": {"k": "inc", "pre": False, "d": -1, "lhs": {"k": "idx", "arr": "arr", "i": V("rd2_x")}}}], calls=[]),
     # explicit hardware-access statements inside (inline) functions: they must survive inlining exactly once, in order (C18)
     "rdp": dict(c="void rdp() { load(*PORT1); }", params=[], body=[{"k": "load", "e": V("PORT1")}], calls=[]),
     "rda": dict(c="void rda() { load(a); store(*PORT2); }", params=[], body=[{"k": "load", "e": V("a")}, {"k": "store", "e": V("PORT2")}], calls=[]),
